@@ -358,3 +358,151 @@ def c07(run):
     run.assumptions += OBS_ASSUME + ["BOM-less UTF-16/32 text starts with an ASCII character (YAML 1.2 section 5.2); otherwise detection is undefined by the YAML specification"]
     obs_stage(run, "encodings", _q(run, 8, 150), ["C02"], "YAML text in UTF-8/16/32 (LE/BE, +-BOM; ASCII-only and not) x slice + 6 read schedules incl. cuts inside code units x explicit/detected x 3 targets: same verdict and bytes as the UTF-8 text")
     run.exhaustive = True
+
+
+# ----------------------------------------------------------------------------- C18 / depth
+
+DEPTH_WINDOWS = {"msgpack": (1024, ["arr", "map", "alt", "key"]), "json": (128, ["arr", "map", "alt"]),
+                 "yaml": (128, ["arr", "map", "alt"]), "toml": (80, ["arr", "map", "alt"])}
+
+
+def depth_cases(run):
+    far = _q(run, [2000, 20000], [1500, 5000, 20000, 100000, 1000000])
+    cases = []
+    for fmt, (lim, shapes) in DEPTH_WINDOWS.items():
+        span = _q(run, range(-3, 4), range(-5, 6))
+        depths = sorted(set([1, 2, 16, 64] + [lim + d for d in span] + far))
+        for shape in shapes:
+            for depth in depths:
+                if fmt in ("json", "yaml", "toml") and depth > 200000 and shape != "arr":
+                    continue
+                for to in (["json", "msgpack"] if run.tier == "quick" else ["json", "msgpack", "yaml", "toml"]):
+                    if shape == "key" and to != "msgpack":
+                        continue        # only MessagePack can write a collection in key position
+                    for frm in ([fmt] if (depth % 2 or run.tier == "quick") else [fmt, "detect"]):
+                        if frm == "detect" and (fmt == "toml"):
+                            continue
+                        cases.append({"fmt": fmt, "shape": shape, "depth": depth, "from": frm, "to": to})
+    return cases
+
+
+def depth_stage(run):
+    """Runs the depth cases in an isolated in-process worker and through both binaries; returns records."""
+    import cli, subprocess, tempfile
+    common.build_harness()
+    xt_dbg = common.build_xt("debug")
+    xt_rel = common.build_xt("release")
+    cases = depth_cases(run)
+    records = []
+    # (a) the library, in a child process (a stack overflow kills the child, not the check)
+    lib_cases = []
+    for i, c in enumerate(cases):
+        for mode in ("slice", "reader"):
+            lib_cases.append(dict(c, id=len(lib_cases), mode=mode))
+    pending = lib_cases
+    while pending:
+        inp = "".join(json.dumps(c) + "\n" for c in pending).encode()
+        p = subprocess.run([common.XTV, "depth-worker"], input=inp, stdout=subprocess.PIPE, stderr=subprocess.PIPE, timeout=1800)
+        done = {}
+        begun = None
+        for line in p.stdout.decode("utf-8", "replace").split("\n"):
+            if not line.strip():
+                continue
+            r = json.loads(line)
+            if r.get("begin"):
+                begun = r["id"]
+            else:
+                done[r["id"]] = r
+        nxt = []
+        crashed = False
+        for c in pending:
+            if c["id"] in done:
+                records.append(dict(ev="depth", runner="lib", mode=c["mode"], res=done[c["id"]]["res"], msg=done[c["id"]]["msg"], **{k: c[k] for k in ("fmt", "shape", "depth", "from", "to")}))
+            elif c["id"] == begun and not crashed:
+                crashed = True
+                sig = -p.returncode if p.returncode < 0 else 0
+                records.append(dict(ev="depth", runner="lib", mode=c["mode"], res="signal", msg="worker died with status %s while translating this case" % p.returncode, signal=sig, **{k: c[k] for k in ("fmt", "shape", "depth", "from", "to")}))
+            else:
+                nxt.append(c)
+        if not crashed and nxt:
+            raise ToolError("depth worker stopped without a crash: rc=%s" % p.returncode)
+        pending = nxt
+    # (b) both binaries: file argument (mmap = slice) and standard input (reader)
+    tmp = os.path.join(WORK, "deep-%s" % run.tier)
+    os.makedirs(tmp, exist_ok=True)
+    files = {}
+    for c in cases:
+        key = (c["fmt"], c["shape"], c["depth"])
+        if key not in files and c["depth"] <= 200000:
+            path = os.path.join(tmp, "d_%s_%s_%d.bin" % key)
+            common.sh([common.XTV, "gen-deep", path, c["fmt"], c["shape"], str(c["depth"])], check=True)
+            files[key] = path
+    jobs = []
+    for c in cases:
+        key = (c["fmt"], c["shape"], c["depth"])
+        if key not in files:
+            continue
+        if run.tier == "quick" and c["to"] != ("msgpack" if c["shape"] == "key" else "json"):
+            continue
+        for runner, binary in (("debug", xt_dbg), ("release", xt_rel)):
+            for mode in ("slice", "reader"):
+                jobs.append((c, runner, binary, mode, files[key]))
+
+    def one(job):
+        c, runner, binary, mode, path = job
+        args = ["-t", c["to"]] + ([] if c["from"] == "detect" else ["-f", c["from"]])
+        if mode == "slice":
+            r = cli.run_xt(binary, args + [path], timeout=120, stdout=subprocess.DEVNULL)
+        else:
+            r = cli.run_xt(binary, args, stdin_path=path, timeout=120, stdout=subprocess.DEVNULL)
+        res = "timeout" if r["timeout"] else "signal" if r["signal"] else "ok" if r["exit"] == 0 else "err" if r["exit"] == 1 else "exit%s" % r["exit"]
+        return dict(ev="depth", runner=runner, mode=mode, res=res, msg=r["stderr"].decode("utf-8", "replace")[:120], signal=r["signal"],
+                    **{k: c[k] for k in ("fmt", "shape", "depth", "from", "to")})
+    records += cli.pmap(one, jobs, workers=12)
+    for f in files.values():
+        try:
+            os.remove(f)
+        except OSError:
+            pass
+    return records
+
+
+def validate_records(run, records, spec, cfg, what, label):
+    path = os.path.join(WORK, "trace_%s_%s_%s.ndjson" % (run.pid, label, run.tier))
+    write_lines(path, records)
+    cur = path
+    n = 0
+    while True:
+        r = common.validate_trace(spec, cfg, cur, tag="%s-%s" % (label, run.pid))
+        if r["accepted"] or n >= 6:
+            break
+        n += 1
+        info = json.loads(common.tlc_printed(r["out"], "REJECTJSON")[0])
+        run.violation("%s: %s" % (what, json.dumps(info["rec"])[:600]), {"kind": label, "record": info["rec"]})
+        lines = read_lines(cur)
+        nxt = path + ".cut%d" % n
+        write_lines(nxt, lines[:info["line"] - 1] + lines[info["line"]:])
+        cur = nxt
+    run.add_traces(len(records), r, what)
+    return n
+
+
+def c18(run):
+    run.rule = ("(1) XtMsgpack: every nesting shape (chains of array / map-key / map-value levels to depth L+2 around 6 kinds of leaf) is evaluated by TLC and replayed "
+                "on the real size calculator with 3 header widths; (2) documents of every format nested around each format's limit and far beyond, every shape, "
+                "translated by the library (isolated worker) and by the debug and release binaries from a file and from stdin; TLC checks XtLimits (clean exit, same "
+                "verdict, one threshold, MessagePack 1023/1024)")
+    mc = run_tlc("MC_XtMsgpack.tla", "MC_XtMsgpack.cfg", workers=8)
+    run.add_mc(mc, "XtMsgpack: SizeExact, CalcCoversDecoder, NoSizeForIllFormed, SameVerdict, LimitExact for all shapes to depth L+2")
+    gen = run_tlc("MC_XtMsgpack.tla", "Gen_XtMsgpack.cfg", workers=8, coverage=False)
+    shapes = sorted(set(tlc_printed(gen["out"], "SHAPE")))
+    path = write_lines(os.path.join(WORK, "shapes_msgpack_%s.ndjson" % run.tier), shapes)
+    summ = run_xtv(["msgpack-replay", path], timeout=1200)
+    run.add_harness(summ, "every TLC-evaluated shape x 3 header widths on the real next_value_size at the model's depth limit")
+    records = depth_stage(run)
+    run.evaluations += len(records)
+    run.nontrivial += len({(r["fmt"], r["shape"], r["depth"], r["from"], r["to"], r["runner"], r["mode"]) for r in records})
+    run.samples += records[:2] + [r for r in records if r["runner"] != "lib"][:2]
+    validate_records(run, records, "XtLimits.tla", "XtLimits.cfg", "nesting-limit run breaks XtLimits", "xtlimits")
+    run.assumptions += ["default 8 MiB main-thread stack (ulimit -s of the sandbox)", "binaries are built from /repo's working tree: cargo build (debug) and cargo build --release"]
+    run.exhaustive = True
